@@ -16,7 +16,7 @@ from inscripta.biocantor import DistanceType
 from inscripta.biocantor.exc import BioCantorException
 from inscripta.biocantor.gene.cds import CDSInterval
 from inscripta.biocantor.gene.cds_frame import CDSFrame, CDSPhase
-from inscripta.biocantor.gene.codon import TranslationTable
+from inscripta.biocantor.gene.codon import Codon, TranslationTable
 from inscripta.biocantor.gene.collections import AnnotationCollection
 from inscripta.biocantor.gene.feature import FeatureInterval, FeatureIntervalCollection
 from inscripta.biocantor.gene.gene import GeneInterval
@@ -198,6 +198,15 @@ def expect_refusal(ctx, label, thunk, validator=None):
             ctx.fail("accepted_ill_formed:" + label, r)
         else:
             ctx.label("corruption_benign", "benign:" + label)
+    elif out.kind == "refused":
+        # the same inconsistent data offered again must be refused again: a refusal that leaves something behind (a registered
+        # half-built singleton, a cache entry made before validation) would let the second request through
+        again = attempt(ctx, label + "(repeat)", thunk)
+        if again.kind == "value":
+            r = validator(again.value) if validator else "accepted"
+            if r:
+                ctx.fail("refused_once_then_accepted:" + label, {"first": repr(out.exc)[:80], "second": repr(again.value)[:80], "why": r})
+        ctx.label("refusal_repeated")
     return out
 
 
@@ -236,6 +245,12 @@ def check_corruptions(spec, ctx):
     expect_refusal(ctx, "Sequence:wrong_alphabet", lambda: Sequence(g + "Z!", Alphabet.NT_STRICT), lambda x: "accepted")
     expect_refusal(ctx, "Sequence:parent_location_length", lambda: Sequence(g, Alphabet.NT_STRICT, parent=Parent(location=SingleInterval(0, n + 1, Strand.PLUS))), lambda x: "accepted")
     expect_refusal(ctx, "Sequence:revcomp_protein", lambda: Sequence("MKV", Alphabet.AA).reverse_complement(), lambda x: "accepted")
+    # --- codons (value objects kept in a process-wide registry)
+    def bad_codon(c):
+        v = str(c)
+        return None if (len(v) == 3 and all(ch in "ATUCGNWSMKRYBDHV" for ch in v.upper())) else "ill-formed codon %r" % v
+    for bad in spec.get("bad_codons") or ["AC", "ACGT", "AC-", "A?G", ""]:
+        expect_refusal(ctx, "Codon:" + ("wrong_length" if len(bad) != 3 else "not_a_nucleotide_triplet"), lambda bad=bad: Codon(bad), bad_codon)
     # --- transcripts
     ex = t["exons"]
     starts, ends = [x[0] for x in ex], [x[1] for x in ex]
@@ -640,7 +655,9 @@ def strat_corrupt(draw, tier="quick"):
     n = hi + draw(st.integers(1, 5))
     a = draw(st.integers(0, n - 2))
     b = draw(st.integers(a + 1, n - 1))
-    return {"genome": draw(S.dna(n, n)), "tx": t, "feat": f, "a": a, "b": b}
+    bad = draw(st.lists(st.one_of(st.text(alphabet="ACGTUNRYacgt", min_size=0, max_size=5).filter(lambda x: len(x) != 3),
+                                  st.text(alphabet="ACGT-?XZ*. 1", min_size=3, max_size=3).filter(lambda x: any(ch in "-?XZ*. 1" for ch in x))), min_size=2, max_size=5))
+    return {"genome": draw(S.dna(n, n)), "tx": t, "feat": f, "a": a, "b": b, "bad_codons": bad}
 
 
 @st.composite
